@@ -420,6 +420,8 @@ G('mapio.ReadSavedGameUnits.content', ['C07'], 'mapio', 'Map_ReadSavedGameUnits'
 mapio('CheckSizeOfUnit', ['C07'])
 mapio('WriteTilesetSources', ['C06', 'C18'], replace=['Writer_WriteSized_u32_str'], defines=['OP2_BOUNDED=4'], timeout=600, bounded='<= 4 tileset sources, names <= 64 bytes (the unbounded quantified prefix-sum proof did not close on cvc5 in 600 s)',
       what='bounded stand-in: tileset source table length equals the description (tile count written iff the name is not empty); proved by loop contract for <= 4 sources')
+mapio('WriteTileGroups', ['C06'], replace=['Writer_WriteSized_u32_str', 'Map_WriteContainerSize', 'vec_TileGroup_empty'], flags=['--object-bits', '12'], timeout=600,
+      bounded='<= 4 tile groups, <= 4096 mapping indices and names <= 64 bytes each', what='bounded stand-in: tile group table = count, count - 1, then per group width, height, indices, size-prefixed name; total length equals the description')
 mapio('Write', ['C06', 'C18'], reach=EXC2, plain_ui=True, replace=['Map_CreateHeader', 'Map_WriteTilesetSources_U', 'Map_WriteTileGroups_U', 'Writer_WriteSized_u32_vec_TileMapping', 'Writer_WriteSized_u32_vec_TerrainType'], flags=['--object-bits', '12'], timeout=600,
       what='map writer: sections in the order and with the sizes the reader consumes; version tags, clip rectangle, TILE SET marker and tile bytes at the offsets the layout gives; refusal writes nothing')
 RS_R = ['Map_SkipSaveGameHeader_U', 'Map_ReadMapBeginning_U', 'Map_ReadVersionTag_U', 'Map_ReadSavedGameUnits_U', 'Map_ReadTileGroups_U']
@@ -444,8 +446,8 @@ claim('C20', 'Proved: size-prefixed writes (uint8/16/32 and int8/16 prefixes) re
       'The VOL/CLM accumulated-offset clauses are bounded in the member count (n <= 3), not in the sizes. Refusal before creation of the destination: proved for VolFile::CreateArchive / WriteVolume and ClmFile::CreateArchive at the level of the pipeline order (every refusing step precedes the only step that constructs the FileWriter; the steps themselves by use-mode framing contracts, std::sort / vector plumbing assumed); CLM stored names longer than 8 characters are refused before WriteArchive (arbitrary index). ArtFile animation / frame / layer totals above 2^32 - 1 are refused by WriteAnimations (totals themselves: CountFrames, assumed).')
 claim('C07', 'For ARBITRARY input bytes over any K_R stream ReadMapBeginning is proved to either throw or return a map whose width is a power of two and whose tile array has exactly height << log2(width) entries (no over-wide shift, no wrapped product, every short read refused), consuming at least the 46 fixed bytes; MapHeader::WidthInTiles/TileCount proved for every exponent <= 31; ReadVersionTag, ReadTilesetHeader, ReadTileGroup, SkipSaveGameHeader proved safe with their exact consumption or refusal; ReadSavedGameUnits proved memory safe on arbitrary bytes and to consume exactly the bytes the layout defines (both object tables sized by their own counts, free-unit table iff first != next free slot; wrong unit size and short input refused); ReadTileGroups proved memory safe and terminating on arbitrary bytes; the pipelines ReadMap (beginning, tag, tag, tile groups) and ReadSavedGame (0x1E025 bytes skipped, the same beginning, tag, unit section, tag) proved to run their steps in exactly that order, to compare both version tags with the tag of the map just read, and to consume the sum of the steps\' lengths - so a saved game embeds exactly the section sequence a map file starts with.',
       'ASSUMED abstract contracts: vector resize, Read<uint32_t>(container), ReadTilesetSources. The pipeline steps are bound to use-mode framing contracts (ghost step counter, ghost lengths). NOT decided: field-level equality of the map yielded by a saved game and by the embedded map file, resource exhaustion.')
-claim('C06', 'Header layer of the round trip proved: CreateHeader writes every header field from the map (width as its base-2 logarithm, saved flag normalised to 0/1), GetWidthInTilesLog2 / Log2OfPowerOf2 / IsPowerOf2 exact, MapHeader and Map constructors deterministic and as specified, version-tag checks exact, WriteContainerSize byte-exact; the tile index formula (C16 group); Map::Write proved to emit the sections in the order and with the sizes the reader consumes them (header, tiles, clip rectangle, tileset sources, TILE SET marker, size-prefixed mappings and terrain types, version tag twice, tile groups), with the version tags, the clip rectangle, the marker and the tile bytes at the offsets that layout gives, and to write nothing when it refuses; reader-side framing facts as in C07. Bounded stand-in: WriteTilesetSources writes exactly the table the reader consumes (tile count iff the name is not empty) for <= 4 sources.',
-      'ASSUMED in Map::Write: the sub-writers by framing contracts (their lengths are ghosts). NOT decided: the container-level round trip (Write(Read(b)) = normalise(b)), WriteTileGroups, WriteTilesetSources beyond 4 sources, editing operations other than SetCellType / SetLavaPossible (proved in C16), TrimTilesetSources (lambda).')
+claim('C06', 'Header layer of the round trip proved: CreateHeader writes every header field from the map (width as its base-2 logarithm, saved flag normalised to 0/1), GetWidthInTilesLog2 / Log2OfPowerOf2 / IsPowerOf2 exact, MapHeader and Map constructors deterministic and as specified, version-tag checks exact, WriteContainerSize byte-exact; the tile index formula (C16 group); Map::Write proved to emit the sections in the order and with the sizes the reader consumes them (header, tiles, clip rectangle, tileset sources, TILE SET marker, size-prefixed mappings and terrain types, version tag twice, tile groups), with the version tags, the clip rectangle, the marker and the tile bytes at the offsets that layout gives, and to write nothing when it refuses; reader-side framing facts as in C07. Bounded stand-ins: WriteTilesetSources writes exactly the table the reader consumes (tile count iff the name is not empty) for <= 4 sources; WriteTileGroups writes count, count - 1, and per group width, height, indices and size-prefixed name with the total length of the description for <= 4 groups.',
+      'ASSUMED in Map::Write: the sub-writers by framing contracts (their lengths are ghosts). NOT decided: the container-level round trip (Write(Read(b)) = normalise(b)), WriteTilesetSources / WriteTileGroups beyond 4 entries, agreement of a tile group\'s index count with width * height (the writer does not check it), editing operations other than SetCellType / SetLavaPossible (proved in C16), TrimTilesetSources (lambda).')
 claim('C01', 'Proved: the comparator that orders members is a strict weak order whose incomparability is case-insensitive equality (C19 lemmas); adjacent-duplicate detection throws iff two neighbouring names are equal ignoring case; GetIndex/Contains find a member by the least matching index and agree; the reader-to-writer copy transfers exactly the remaining bytes for every chunk size; VOL section headers serialise tag, 31-bit length and padding flag exactly; the VOL reader returns exactly the recorded extents and sizes. Bounded stand-ins: PrepareHeader (n <= 3) and PrepareHeader+WriteHeader+WriteFiles byte-for-byte against an independent encoder (n <= 2, tiny names/payloads).',
       'The layout clauses are bounded (see evidence.bounded). Also proved: WriteVolume refuses an output path equal to any input (arbitrary index) before the destination is created; CreateArchive runs sort -> names of the sorted list -> duplicate check on those names -> PrepareHeader -> WriteVolume (pipeline order, steps by framing contracts). NOT decided: path spelling (XFile::GetFilename, ComparePathFilenames composition), std::sort itself, extraction to disk, PathsAreEqual case folding.')
 claim('C02', 'Writer => format: bounded byte-for-byte comparison of the written archive with an independent encoder of the VOL description (n <= 2) and of the header quantities in 128-bit arithmetic (n <= 3); section header bit layout proved. Format => reader: for arbitrary bytes ReadVolHeader establishes the archive invariant, CountValidEntries stops at the first unused slot (0xFFFFFFFF name offset), GetSize/GetCompressionCode return the recorded fields, OpenStream returns the recorded extent or refuses it; ordering facts as in C01/C19.',
@@ -453,7 +455,7 @@ claim('C02', 'Writer => format: bounded byte-for-byte comparison of the written 
 NOT_DECIDED.update({
  'C20': ['CountFrames arithmetic behind the ArtFile totals', 'VOL/CLM offsets: bounded in member count', 'pipeline steps of CreateArchive are bound to abstract framing contracts (std::sort, vector plumbing assumed)'],
  'C07': ['field-level saved-game vs map equivalence (pipeline order and consumption are decided)', 'resource exhaustion'],
- 'C06': ['container-level round trip and byte stability', 'WriteTileGroups; WriteTilesetSources beyond 4 sources', 'TrimTilesetSources'],
+ 'C06': ['container-level round trip and byte stability', 'WriteTilesetSources / WriteTileGroups beyond 4 entries', 'TrimTilesetSources'],
  'C01': ['layout clauses bounded in member count', 'path spelling (ComparePathFilenames composition), std::sort itself, extraction to disk'],
  'C02': ['writer side bounded in member count', 'ReadStringTable content', 'acceptance by the game'],
 })
